@@ -435,6 +435,7 @@ def alphabet(actor):
         ("cas", M, Y, z),        # right when m == Y, stale otherwise
         ("cas", M, None, z),     # unconditional set
         ("add", M, z),
+        ("add", HEAD, z),        # add_if_new through the symbolic ref (what a first commit does)
         ("rm", M, X),
         ("rm", M, None),
         ("cas", HEAD, X, z),     # through the symbolic ref
@@ -468,6 +469,14 @@ def scenarios(quick):
     for init in (["looseX/sym", "packedX/sym"] if quick else inits):
         for c in chains:
             for o in others:
+                out.append((init, [c, o], 2))
+    # creation races: the other actor creates the ref and packs it away before the first one takes its lock
+    creators = [[("add", M, Z0)], [("add", HEAD, Z0)], [("cas", M, None, Z0)], [("cas", M, ZERO, Z0)]]
+    packers = [[("add", M, Z1), ("pack",)], [("cas", M, None, Z1), ("pack",)], [("add", HEAD, Z1), ("pack",)],
+               [("pack",), ("add", M, Z1)]]
+    for init in (["absent/sym"] if quick else ["absent/sym", "looseX/detached"]):
+        for c in creators:
+            for o in packers:
                 out.append((init, [c, o], 2))
     # three actors
     triples = [
